@@ -736,6 +736,10 @@ class World:
                         self.count("config_applied_unambiguously")
             if b"formatted-by-stub" in e[2]:
                 self.count("formatter_stub_applied")
+            if any(len(set(o.get(k, []))) < len(o.get(k, [])) for k in ("scheme", "stiff")):
+                self.count("success_with_repeated_scheme_or_stiff_option")
+            if any(ch in op["fname"] for ch in " \u03b1"):
+                self.count("success_with_space_or_non_ascii_model_name")
             if op["cmd"] in ("ode2c", "convert") and e[1].endswith((".c", ".h")) and self.stub_kind == "real":
                 self.count("c_output_with_real_clang_format_env")
             if op["cmd"] == "ode2py" and op["fname"].endswith(".ode") and any(
